@@ -1,15 +1,20 @@
 (** Two further tie obligations on Gen/RelaySkel.v:
 
-    (1) AGREEMENT OF THE TWO TRANSLATORS.  translate/callback_skeleton.py regenerates a coarser
+    (1) AGREEMENT OF THE TWO TRANSLATORS (a PIN BETWEEN TWO REGENERATED FILES: both sides change when
+    the source changes; it says the two translators read the same structure, it is not a property of
+    the code -- those are in Relay/Tie.v and Relay/TieExn.v).  translate/callback_skeleton.py regenerates a coarser
     skeleton of the same two functions (Gen/CallbackSkeleton.v: [session_skeleton],
     [relay_skeleton], used by Life/FailStart.v for "what happens when an await raises", C12).
     Erasing the detail of the statement trees of Gen/RelaySkel.v (the drain loop becomes one
     await, the timer and `in_finally = False` disappear) must give exactly those skeletons, so
     the exception analysis of C12 and the relay analysis of C10 are about the same code.
 
-    (2) OnEvent.on_event_in_process (monitor.py) awaits, for every event class, the hook of the
-    same name (CamelCase -> snake_case): the delivery of an event has completed only when the
-    hook of its own kind has. *)
+    (2) OnEvent.on_event_in_process (monitor.py; EVERY statement of it is translated, anything else
+    is refused by the translator: `ahook = context.hook.ahook; match event:` and per case the
+    open_prompts update and the awaited hook).  Against nextline/events.py: every subclass of Event the
+    child constructs has a case; every case is a subclass of Event; a class without a case is one the
+    main process constructs itself; each case awaits exactly one hook, the one of its own name
+    (CamelCase -> snake_case), as its last statement. *)
 From Coq Require Import List String Ascii Arith Bool.
 From NL Require Import Relay.Syntax Gen.RelaySkel.
 From NL Require Gen.CallbackSkeleton.
@@ -26,6 +31,7 @@ Fixpoint mkseq (l : list CS.stmt) : CS.stmt :=
 Fixpoint erase (s : stmt) : list CS.stmt :=
   match s with
   | SSkip => []
+  | SAssert => []
   | SSeq a b => erase a ++ erase b
   | STry a b => [CS.TryFinally (mkseq (erase a)) (mkseq (erase b))]
   | SYield => [CS.Yield]
@@ -67,8 +73,20 @@ Definition snake (s : string) : string :=
 Fixpoint nodupb (l : list string) : bool :=
   match l with [] => true | x :: r => negb (existsb (String.eqb x) r) && nodupb r end.
 
-(** every event class has one case, which awaits the hook of its own name *)
-Lemma dispatch_awaits_own_hook :
-  forallb (fun p => String.eqb (snake (fst p)) (snd p)) dispatch = true /\ nodupb (map fst dispatch) = true /\
-  negb (Nat.eqb (List.length dispatch) 0) = true.
+Definition mem (x : string) (l : list string) : bool := existsb (String.eqb x) l.
+
+(** the body of a case: [open_prompts update;] await of the hook of its own name *)
+Definition case_ok (p : string * list dstmt) : bool :=
+  match snd p with
+  | [DAwaitHook h] | [DOpenAdd; DAwaitHook h] | [DOpenDiscard; DAwaitHook h] => String.eqb (snake (fst p)) h
+  | _ => false
+  end.
+
+Lemma dispatch_complete :
+  forallb case_ok dispatch = true /\ nodupb (map fst dispatch) = true /\
+  forallb (fun c => mem c (map fst dispatch)) child_event_classes = true /\
+  forallb (fun c => mem c event_classes) (map fst dispatch) = true /\
+  forallb (fun c => mem c (map fst dispatch) || mem c main_event_classes) event_classes = true /\
+  forallb (fun c => negb (mem c (map fst dispatch))) main_event_classes = true /\
+  negb (Nat.eqb (List.length child_event_classes) 0) = true.
 Proof. repeat split; vm_compute; reflexivity. Qed.
